@@ -216,6 +216,30 @@ theorem C02_block_shape (D : Nat) (hD : 0 < D) (cs : List (Client ι β γ)) (pb
   obtain ⟨c0, rest, rfl, hm⟩ := chunk_head_max D hD _ _ (sortDesc_pairwise cs) blk hblk
   exact ⟨hne, hlen, c0, rest, rfl, fun c hc => ⟨hm c hc, by simp [maskedBatches]⟩⟩
 
+/-- A client's result under the pmap backend does not depend on which other clients share the call
+(nor on how they are blocked over devices): every client of the cohort gets exactly its own sequential
+result, and every yielded result is the sequential result of one cohort member with one step result
+per batch. -/
+theorem C02_client_independent (init : σ₀ → γ → σ) (step : σ → β → σ × ρ) (final : σ₀ → σ → ω)
+    (padI : γ → γ) (padB : β → β) (zeroR : ρ → ρ) (D : Nat) (hD : 0 < D) (shared : σ₀)
+    (cs : List (Client ι β γ)) :
+    (∀ c ∈ cs, seqRun init step final shared c ∈ pmapRun init step final padI padB zeroR D shared cs) ∧
+    (∀ r ∈ pmapRun init step final padI padB zeroR D shared cs,
+      ∃ c ∈ cs, r = seqRun init step final shared c ∧ r.2.2.length = c.batches.length) := by
+  have hp := C02_pmap_perm init step final padI padB zeroR D hD shared cs
+  constructor
+  · intro c hc
+    exact hp.mem_iff.mpr (List.mem_map_of_mem hc)
+  · intro r hr
+    obtain ⟨c, hc, rfl⟩ := List.mem_map.mp (hp.mem_iff.mp hr)
+    exact ⟨c, hc, rfl, by simp [seqRun, foldSteps_length]⟩
+
+/-- A client with zero batches: `final(shared, init(shared, input))` and no step results. -/
+theorem C02_zero_batch_client (init : σ₀ → γ → σ) (step : σ → β → σ × ρ) (final : σ₀ → σ → ω)
+    (shared : σ₀) (c : Client ι β γ) (h : c.batches = []) :
+    seqRun init step final shared c = (c.id, final shared (init shared c.input), []) := by
+  simp [seqRun, h, foldSteps]
+
 /-- `with_step_result=False`: wrapping the step as `(step(state, batch), ())` gives the plain
 left fold of `step` as the client's final state. -/
 theorem C02_with_step_result (f : σ → β → σ) (st : σ) (bs : List β) :
